@@ -12,6 +12,8 @@ import Proofs.Lemmas.C11Chain
 import Proofs.Lemmas.C11Decode
 import Proofs.Lemmas.C11Parse
 import Proofs.Lemmas.C11EndToEnd
+import Proofs.Lemmas.C12Transforms
+import Proofs.Lemmas.C19Scope
 namespace Flatland.C11.Proofs
 open Flatland.C11 Flatland.Markup Flatland.Generated.C11
 
@@ -96,12 +98,16 @@ def renderData (ch tch : Chain) (voids : List Str) (xml : Bool) (tag : Str)
 /-- Generic: for an attribute-safe chain `ch`, a text-safe chain `tch`, a valid tag name, valid
     attribute names and ARBITRARY attribute values and text, the serialiser succeeds and the parser
     reads back exactly that tag, exactly those attributes with exactly those values (no extras),
-    and exactly that text (void elements: no text, by construction of `Tag.__call__`). -/
+    and exactly that text (void elements: no text, by construction of `Tag.__call__`).
+    The serialiser's void table `voids` (the generator's `VOID_ELEMENTS`) and the parser's
+    `pvoids` are separate; they must agree on the tag (`voids_agree` on the generated table), so a
+    wrong `VOID_ELEMENTS` — one that would silently drop a textarea's text — breaks the build. -/
 theorem parse_render_generic (ch tch : Chain) (hch : AttrChainOK ch = true) (htch : TextChainOK tch = true)
-    (voids : List Str) (xml : Bool) (tag : Str) (attrs : List (Str × Str)) (text : Str)
-    (htag : validName tag = true) (hv : ∀ kv ∈ attrs, validName kv.1 = true) :
+    (voids pvoids : List Str) (xml : Bool) (tag : Str) (attrs : List (Str × Str)) (text : Str)
+    (htag : validName tag = true) (hv : ∀ kv ∈ attrs, validName kv.1 = true)
+    (hv2 : pvoids.contains tag = voids.contains tag) :
     ∃ s, renderData ch tch voids xml tag attrs text = .ok s ∧
-      parseTag decodeRefs voids s =
+      parseTag decodeRefs pvoids s =
         some ⟨tag, attrs, if voids.contains tag then [] else text⟩ := by
   have hq := (no_breakout_attr ch hch · |>.1)
   have hdec := decodeRefs_escape ch (attrOK_text hch)
@@ -115,7 +121,7 @@ theorem parse_render_generic (ch tch : Chain) (hch : AttrChainOK ch = true) (htc
   have start : ∀ (closer : Str) (cl : Closer) (tail : Str),
       (closer = ['>'] ∨ closer = [' ', '/', '>']) →
       parseAttrs decodeRefs (closer ++ tail) = some ([], cl, tail) →
-      parseTag decodeRefs voids
+      parseTag decodeRefs pvoids
         ('<' :: tag ++ attrs.flatMap (attrText (escapeChain ch)) ++ closer ++ tail) =
       (if cl = .selfClosed || voids.contains tag then
         if tail.isEmpty then some ⟨tag, attrs, []⟩ else none
@@ -131,7 +137,7 @@ theorem parse_render_generic (ch tch : Chain) (hch : AttrChainOK ch = true) (htc
       rw [← hcr]; simp
     obtain ⟨h1, h2⟩ := takeWhile_name tag rest c htall hstop
     rw [hstr]
-    simp only [parseTag, h1, h2, hname_ne, Bool.false_eq_true, ↓reduceIte]
+    simp only [parseTag, h1, h2, hname_ne, Bool.false_eq_true, ↓reduceIte, hv2]
     rw [← hcr, parseAttrs_render decodeRefs (escapeChain ch) hq hdec attrs hv closer cl tail hcl]
     rfl
   unfold renderData renderTag
@@ -167,19 +173,39 @@ theorem parse_render_generic (ch tch : Chain) (hch : AttrChainOK ch = true) (htc
     simp only [List.append_assoc, List.cons_append] at hs ⊢
     simp [hs, hdect]
 
+/-- the generator's `VOID_ELEMENTS` is the HTML parser's void table (regenerated; `decide`) -/
+theorem voids_agree : (voidElements.all htmlVoidElements.contains && htmlVoidElements.all voidElements.contains) = true := by
+  decide
+
+theorem voids_contains (tag : Str) : htmlVoidElements.contains tag = voidElements.contains tag := by
+  have h := voids_agree
+  simp only [Bool.and_eq_true, List.all_eq_true] at h
+  by_cases h1 : voidElements.contains tag = true
+  · rw [h1]; exact h.1 tag (by simpa using h1)
+  · simp only [Bool.not_eq_true] at h1
+    rw [h1, Bool.eq_false_iff]
+    intro h2
+    have := h.2 tag (by simpa using h2)
+    rw [this] at h1; simp at h1
+
 /-- C11, markup part, on the tables of the current source: `Tag.__call__`'s serialisation of any
-    tag name / attribute names (identifiers) with ANY attribute values and ANY text parses back
-    to exactly one element with exactly those attributes and that text. -/
+    tag name / attribute names from the declared grammar (`[A-Za-z][A-Za-z0-9_:.-]*`, lower case —
+    names are chosen by the template author; html.parser lower-cases them) with ANY attribute values
+    and ANY text parses back to exactly one element with exactly those attributes and that text. -/
 theorem parse_render (xml : Bool) (tag : Str) (attrs : List (Str × Str)) (text : Str)
-    (htag : validName tag = true) (hv : ∀ kv ∈ attrs, validName kv.1 = true) :
+    (htag : lowerName tag = true) (hv : ∀ kv ∈ attrs, lowerName kv.1 = true) :
     ∃ s, renderData attrChain textChain voidElements xml tag attrs text = .ok s ∧
-      Spec.ParsesTo decodeRefs voidElements s tag attrs (if voidElements.contains tag then [] else text) :=
-  parse_render_generic attrChain textChain attrChain_ok textChain_ok voidElements xml tag attrs text htag hv
+      Spec.ParsesTo decodeRefs htmlVoidElements s tag attrs (if voidElements.contains tag then [] else text) :=
+  parse_render_generic attrChain textChain attrChain_ok textChain_ok voidElements htmlVoidElements xml tag attrs text
+    (lowerName_valid htag) (fun kv h => lowerName_valid (hv kv h)) (voids_contains tag)
 
 /-! ### non-vacuity -/
 
-example : validName "input".toList = true := by decide
-example : validName "data-x".toList = true := by decide
+example : lowerName "input".toList = true := by decide
+example : lowerName "data-x".toList = true := by decide
+/-- names outside the declared grammar are outside the theorem (author-controlled, not data) -/
+example : lowerName "a\nonclick".toList = false ∧ lowerName "CLASS".toList = false ∧ lowerName "a\tb".toList = false := by
+  decide
 example : escapeChain attrChain "a\"<b>&".toList = "a&quot;&lt;b&gt;&amp;".toList := by decide
 example : substOf attrChain '"' = "&quot;".toList := by decide
 /-- a chain with `&` replaced last is rejected by the side condition … -/
@@ -197,17 +223,30 @@ open Flatland.C11 Flatland.Markup Flatland.Generated.C11 Flatland.C19.Proofs
 /-! ### end to end: `str(generator.<tag>(bind, **kwargs))` parses back -/
 
 /-- C11 THROUGH THE WHOLE GENERATOR.  For the tables of the current source, ANY generator state,
-    any valid tag name, ANY bound element (its flattened name and text are arbitrary strings — the
-    hostile data), and keyword arguments that are plain strings under valid attribute names
-    (no explicit `contents=`): if the call returns markup `s`, then `s` parses as exactly one
-    element of the requested tag; none of its attributes is an `auto_*` option; its text is empty
-    or exactly the bound element's text. -/
+    a tag name of the declared grammar, ANY bound element (its flattened name and text are arbitrary
+    strings — the hostile data), and keyword arguments of the declared domain (`GoodKwargs`: options
+    with any value, plain strings under names of the declared grammar; no explicit `contents=`):
+    if the call returns markup `s`, then
+
+    * `s` parses as exactly one element of the requested tag, whose attributes `attrs` are EXACTLY
+      what the transforms computed (`r.pairs`, all plain strings) and whose text is the text whose
+      escaped form the transforms left as contents (`r`: the model's `prepareTag` result — what
+      those strings are for each control kind is the subject of the C12 theorems);
+    * none of the attributes is an `auto_*` option;
+    * every author attribute outside the generated names (name, value, id, for, tabindex, checked,
+      selected) is among them with exactly the author's string;
+    * the text is empty or exactly the bound element's text. -/
 theorem callTag_parses (g g' : Gen) (tag : Str) (bnd : Option Bind) (kwargs : List (Str × Val)) (s : Str)
-    (htag : validName tag = true) (hkw : GoodKwargs kwargs)
+    (htag : lowerName tag = true) (hkw : GoodKwargs kwargs)
     (hnc : Dict.get? kwargs "contents".toList = none)
     (h : g.callTag Tables.current attrChain voidElements staticAttributeOrder tag bnd kwargs = .ok (s, g')) :
-    ∃ attrs text, Spec.ParsesTo decodeRefs voidElements s tag attrs text ∧
+    ∃ r attrs text,
+      prepareTag Tables.current staticAttributeOrder g tag bnd kwargs = .ok r ∧
+      r.pairs = attrs.map (fun kv => (kv.1, Val.text kv.2)) ∧
+      r.contents = markupEscape textChain text ∧
+      Spec.ParsesTo decodeRefs htmlVoidElements s tag attrs (if voidElements.contains tag then [] else text) ∧
       (∀ kv ∈ attrs, kv.1 ∉ optionKeys) ∧
+      (∀ k v, k ∉ Flatland.C12.Proofs.touchKeys → Dict.get? (transformKeys kwargs) k = some (.text v) → (k, v) ∈ attrs) ∧
       (text = [] ∨ ∃ b, bnd = some b ∧ text = b.u) := by
   unfold Gen.callTag at h
   simp only [bind, Except.bind] at h
@@ -225,7 +264,7 @@ theorem callTag_parses (g g' : Gen) (tag : Str) (bnd : Option Bind) (kwargs : Li
       obtain ⟨st6, o, ht, hpairs, hcont⟩ := prepareTag_full hp
       have hk0 := erase_absent' kwargs "contents".toList hnc
       rw [hk0, hnc] at ht
-      obtain ⟨hgood, hcok⟩ := transform_good (transformKeys_good kwargs hkw) ht
+      obtain ⟨hgood, hcok⟩ := transform_good (transformKeys_nodup kwargs) (transformKeys_good kwargs hkw) ht
       have hgp := goodAttrs_orderPairs staticAttributeOrder o st6.attrs hgood
       rw [← hpairs] at hgp
       obtain ⟨attrs, hattrs, hvalid⟩ := goodAttrs_as_text r.pairs hgp
@@ -237,19 +276,31 @@ theorem callTag_parses (g g' : Gen) (tag : Str) (bnd : Option Bind) (kwargs : Li
         · rw [hc1] at hcont; exact ⟨b.u, by rw [hcont]; rfl, Or.inr ⟨b, hb, rfl⟩⟩
       obtain ⟨t, hct, htt⟩ := hc
       obtain ⟨s2, hs2, hparse⟩ := parse_render_generic attrChain textChain attrChain_ok textChain_ok voidElements
-        g.xml tag attrs t htag hvalid
+        htmlVoidElements g.xml tag attrs t (lowerName_valid htag) hvalid (voids_contains tag)
       unfold renderData at hs2
       rw [← hattrs, ← hct, hr] at hs2
       simp only [Except.ok.injEq] at hs2
       subst hs2
-      refine ⟨attrs, _, hparse, ?_, ?_⟩
+      refine ⟨r, attrs, t, rfl, hattrs, hct, hparse, ?_, ?_, htt⟩
       · intro kv hm hopt
         apply hno kv.1 hopt (.text kv.2)
         rw [hattrs]
         exact List.mem_map.mpr ⟨kv, hm, rfl⟩
-      · split
-        · left; rfl
-        · exact htt
+      · intro k v hk hget
+        have h6 : Dict.get? st6.attrs k = some (.text v) := by
+          rw [Flatland.C12.Proofs.transform_frame k hk ht]; exact hget
+        have hm6 : (k, Val.text v) ∈ st6.attrs := mem_of_get? _ _ _ h6
+        have hmr : (k, Val.text v) ∈ r.pairs := by
+          rw [hpairs]
+          unfold orderPairs
+          split
+          · exact (mem_sortBy _ _ _).mpr hm6
+          · exact hm6
+        rw [hattrs] at hmr
+        obtain ⟨kv, hkv, he⟩ := List.mem_map.mp hmr
+        simp only [Prod.mk.injEq, Val.text.injEq] at he
+        obtain ⟨rfl, rfl⟩ := he
+        exact hkv
 
 end Flatland.C11.Proofs
 
@@ -259,7 +310,8 @@ open Flatland.C11 Flatland.Markup Flatland.Generated.C11 Flatland.C19.Proofs
 /-! non-vacuity of `callTag_parses`: hostile bind, hostile attribute value, valid names -/
 
 def nvKwargs : List (Str × Val) :=
-  [("class_".toList, .text "x\" onclick=\"y".toList), ("type".toList, .text "text".toList)]
+  [("class_".toList, .text "x\" onclick=\"y".toList), ("type".toList, .text "text".toList),
+   ("auto_domid".toList, .bool true)]
 def nvBind : Bind := ⟨"a\"b".toList, "\"><script>&amp;".toList, .scalar⟩
 def nvGen : Gen :=
   match Gen.init Tables.current "xhtml".toList [("auto_domid".toList, .bool true)] with
@@ -269,7 +321,10 @@ def nvGen : Gen :=
 example : GoodKwargs nvKwargs := by
   intro kv hm
   simp only [nvKwargs, List.mem_cons, List.not_mem_nil, or_false] at hm
-  rcases hm with rfl | rfl <;> exact ⟨⟨_, rfl⟩, by decide⟩
+  rcases hm with rfl | rfl | rfl
+  · exact Or.inr ⟨⟨_, rfl⟩, by decide⟩
+  · exact Or.inr ⟨⟨_, rfl⟩, by decide⟩
+  · exact Or.inl (by decide)
 example : Dict.get? nvKwargs "contents".toList = none := by decide
 -- the call succeeds (so the theorem's hypothesis is met), with this output
 set_option maxRecDepth 10000 in
